@@ -95,16 +95,63 @@ def spellings(order):
         yield ''.join(combo)
 
 
-def check_multiset(ctx, centre, counter, limit=400):
+def big_forms(rng, counter):
+    """A bounded set of orderings and run-length spellings for a multiset
+    too large to enumerate (counts of 9 and more)."""
+    items = []
+    for k, v in sorted(counter.items()):
+        items += [k] * v
+    ords = [tuple(items), tuple(reversed(items))]
+    for _ in range(3):
+        sh = list(items)
+        rng.shuffle(sh)
+        ords.append(tuple(sh))
+    texts = set()
+    keys = sorted(counter)
+    for order in (keys, list(reversed(keys))):
+        # whole counts, and each count split in two in a few places
+        texts.add(''.join('(%s)%s' % (k, counter[k] if counter[k] > 1 else '')
+                          for k in order))
+        for k in order:
+            n = counter[k]
+            for a in (1, 2, 9, 10, n - 1, n // 2):
+                if 0 < a < n:
+                    parts = []
+                    for k2 in order:
+                        if k2 == k:
+                            parts.append('(%s)%s(%s)%s' % (
+                                k, a if a > 1 else '', k,
+                                n - a if n - a > 1 else ''))
+                        else:
+                            parts.append('(%s)%s' % (
+                                k2, counter[k2] if counter[k2] > 1 else ''))
+                    texts.add(''.join(parts))
+                    # the second part after the other peripherals
+                    if len(order) > 1:
+                        rest = [k2 for k2 in order if k2 != k]
+                        texts.add('(%s)%s' % (k, a if a > 1 else '') + ''.join(
+                            '(%s)%s' % (k2, counter[k2] if counter[k2] > 1
+                                        else '') for k2 in rest) +
+                            '(%s)%s' % (k, n - a if n - a > 1 else ''))
+    return ords, texts
+
+
+def check_multiset(ctx, centre, counter, limit=400, big=False):
     from pgradd.GroupAdd.Group import Group
     case = {'centre': centre, 'peripherals': dict(counter)}
     want = ref_canon(centre, counter)
     groups = []
     rng = ctx.sub_rng('c19', centre, sorted(counter.items()))
-    ords = orderings(counter)
+    if big:
+        ords, big_texts = big_forms(rng, counter)
+    else:
+        ords = orderings(counter)
+        big_texts = None
     if len(ords) > 40:
         ords = rng.sample(ords, 40)
     texts = set()
+    if big_texts is not None:
+        texts = set(centre + t for t in big_texts)
     for od in ords:
         o = observe(Group, None, centre, list(od))
         ctx.evals()
@@ -113,6 +160,8 @@ def check_multiset(ctx, centre, counter, limit=400):
                           {'order': od, 'msg': o['msg']})
             return
         groups.append(('ctor %s' % (list(od),), o['ok']))
+        if big:
+            continue
         for sp in spellings(od):
             texts.add(centre + sp)
     texts = sorted(texts)
@@ -290,6 +339,18 @@ def run_shard(ctx):
         cnt = collections.Counter(r.choice(PERIPH)
                                   for _ in range(r.randint(5, 8)))
         check_multiset(ctx, r.choice(CENTRES), cnt, limit=150)
+    # repeat counts of two digits (a surface atom with twelve neighbours)
+    big = []
+    for n in (9, 10, 11, 12, 15, 20, 100):
+        for p1 in ('Pt', 'H', 'C', 'CO'):
+            big.append(collections.Counter({p1: n}))
+            big.append(collections.Counter({p1: n, 'O': 1}))
+            big.append(collections.Counter({p1: n, 'C[d]': 10}))
+    for j, cnt in enumerate(big):
+        if ctx.mine(j):
+            ctx.count('groups_with_two_digit_counts')
+            check_multiset(ctx, CENTRES[j % len(CENTRES)], cnt, limit=80,
+                           big=True)
     for j, t in enumerate(MALFORMED):
         if ctx.mine(j):
             check_malformed(ctx, t)
@@ -302,8 +363,9 @@ def replay(ctx, case):
     if 'library_key' in case:
         check_library(ctx, case['library_key'])
     elif 'centre' in case:
-        check_multiset(ctx, case['centre'],
-                       collections.Counter(case['peripherals']))
+        cnt = collections.Counter(case['peripherals'])
+        check_multiset(ctx, case['centre'], cnt,
+                       big=sum(cnt.values()) >= 9)
     else:
         check_malformed(ctx, case['text'])
 
